@@ -278,10 +278,10 @@ func c07EnumerateBig(thorough bool) []c07ID {
 	// the prototype number of CLOSURE (18 bits). Each case either compiles to code that runs as
 	// predicted or is refused by the compiler; a field that wraps around shows as a wrong result,
 	// a fault or a verifier report.
-	labels := []int{87381, 87400}
+	labels := []int{43689, 43690, 43691, 87400}
 	targets := []int{200, 250, 254, 255, 256, 400, 509, 510, 511, 512, 600}
 	if thorough {
-		labels = []int{43000, 44000, 87300, 87380, 87381, 87382, 87400, 131072}
+		labels = []int{43000, 43688, 43689, 43690, 43691, 43692, 44000, 87381, 87400, 131072}
 		ids = append(ids, c07ID{Family: "limits", P: []int{3, 262143}}, c07ID{Family: "limits", P: []int{3, 262145}})
 	}
 	for _, n := range labels {
